@@ -16,7 +16,7 @@ EXPLANATION = (
     "created only in compose_node (from ParserMatch::Token) and detach; ParserMatch::Token only in parse_token_with from "
     "the popped cursor; (R4) EOI - Context::span of an invalid cursor is end..end+1 with end = TokenList::end(). Token "
     "tiling by the generated lexer and character-boundary placement for every input are not decided.")
-EXPLANATION += " Further clauses: (R5) PUSH-ADVANCE - a node attached to the tree is behind the returned cursor (forward must-derive dataflow over Cursor-typed MIR locals); (R6) SAME-TEXT (shared C16.R5); (R7) FRESH-TREE (shared C15.R3); (U) units of oal_model::span (CharSpan is in code points). (R8) DIAG-SPAN - a diagnostic keeps the error's own span, module and range are never recombined; (R9) LEX-TOTAL - the tokenizing loop ends only when the lexer is exhausted. (R10) SPAN-PROVENANCE - outside the lexer, the token list and the hull computation no span is computed from offsets; R1 LOADER-TEXT also covers read_file and the text stored by didOpen."
+EXPLANATION += " Further clauses: (R5) PUSH-ADVANCE - a node attached to the tree is behind the returned cursor (forward must-derive dataflow over Cursor-typed MIR locals); (R6) SAME-TEXT (shared C16.R5); (R7) FRESH-TREE (shared C15.R3); (U) units of oal_model::span (CharSpan is in code points). (R8) DIAG-SPAN - a diagnostic keeps the error's own span, module and range are never recombined; (R9) LEX-TOTAL - the tokenizing loop ends only when the lexer is exhausted. (R10) SPAN-PROVENANCE - outside the lexer, the token list and the hull computation no span is computed from offsets; R1 LOADER-TEXT also covers read_file and the text stored by didOpen. (R11) EOI-CONTAINED - errors of single productions (which may carry the end-of-input span) do not leave oal_syntax::parse."
 TECHNIQUE = "static analysis: def-use provenance on MIR + must-use of destructured parser results on typed HIR + constructor census"
 
 PAIR = re.compile(r'^\(oal_model::lexicon::Cursor, (oal_model::grammar::)?ParserMatch<')
